@@ -8,6 +8,9 @@ ranges only (gen_c10.Window / gen_c10.VSpec are the executable contract):
   * a recorded fill (write k bytes at the start of the writable part, advance_to /
     advance_vec_to) makes exactly those bytes visible (root length = max(old, end of the
     written range)), every other cell and every other length unchanged;
+  * Slice<Slice<T>>::flatten leaves every reported range as it was;
+  * pool buffers: set_capacity(n) gives capacity min(n, full size) (nothing for 0), length
+    min(length, capacity), content untouched; the view contract holds in every capacity state;
   * no panic as long as the program stays inside the contract.
 Programs that leave the contract (out-of-range begin/end, fills beyond the capacity, raw
 set_len) are not judged from that point on.
@@ -19,7 +22,8 @@ import re
 import diffcheck
 import gen_c10
 import vlib
-from gen_c10 import Leave, Member, VSpec, Window
+import gen_c10b
+from gen_c10 import POOL, Leave, Member, VSpec, Window
 
 
 class Cur:
@@ -70,7 +74,14 @@ class Verdict:
 
 def check_member_dump(vd, o, m, idx, tag, cell_tag="contract"):
     rl, cp = o.take(), o.take()
-    cells = o.take_n(cp)
+    if m.kind == POOL:
+        full = o.take()
+        if full != m.full:
+            vd.add("contract", "pool buffer: full size changed %d -> %d" % (m.full, full))
+            return
+        cells = o.take_n(full)
+    else:
+        cells = o.take_n(cp)
     if cp != m.cap:
         vd.add("contract", "member %d: capacity changed %d -> %d" % (idx, m.cap, cp))
         return
@@ -111,11 +122,15 @@ def window_print(vd, o, w, tag, resync=False):
 
 def judge_buffer(case, out):
     c = Cur(case)
-    c.take()
-    kind, ln, cap = c.take(), c.take(), c.take()
+    if c.take() == 3:
+        c.take()
+        full = c.take()
+        m = Member(POOL, 0, full, full)
+    else:
+        kind, ln, cap = c.take(), c.take(), c.take()
+        m = Member(kind, ln, cap)
     ns = c.take()
     steps = [(c.take(), c.take(), c.take()) for _ in range(ns)]
-    m = Member(kind, ln, cap)
     w = Window(m)
     vd = Verdict()
     bare = is_bare_panic(out)
@@ -159,6 +174,13 @@ def judge_buffer(case, out):
                 resync = True
                 if bare:
                     raise Leave
+            elif code == 6:
+                w.flatten()      # the window and every range stay as they are
+            elif code == 7:
+                # shrinking the capacity below bytes a view covers is not a use of the view
+                if w.layers and a != 0 and min(a, m.full) < m.rlen:
+                    raise Leave
+                m.set_capacity(a)
             if not bare:
                 window_print(vd, o, w, tag(), resync)
     except Leave:
@@ -370,7 +392,7 @@ def oracle(case, out):
     if out[:1] == [99999]:
         return None
     try:
-        if case[0] == 1:
+        if case[0] in (1, 3):
             return judge_buffer(case, out)
         if case[0] == 2:
             return judge_vectored(case, out)
@@ -394,9 +416,10 @@ KNOWN_TAGS = [
 
 
 def case_steps(case):
-    if case[0] == 1:
-        ns = case[4]
-        return [case[5 + 3 * i] for i in range(ns)]
+    if case[0] in (1, 3):
+        p = 4 if case[0] == 1 else 3
+        ns = case[p]
+        return [case[p + 1 + 3 * i] for i in range(ns)]
     nm = case[2]
     p = 3 + 3 * nm
     return [case[p + 1 + 2 * i] for i in range(case[p])]
@@ -418,9 +441,9 @@ def known(case, out, what):
         "advance-vec-to-noop": lambda: case[0] == 2 and 3 in codes,
         "vslice-uninit-offset": lambda: case[0] == 2 and (1 in codes or 2 in codes),
         "viter-after-fill": lambda: case[0] == 2 and 5 in codes and (6 in codes or 9 in codes),
-        "uninit-after-fill": lambda: (2 if case[0] == 1 else 11) in codes,
-        "bounded-slice-advance": lambda: ((1 in codes and 4 in codes) if case[0] == 1
-                                          else (12 in codes and 9 in codes)),
+        "uninit-after-fill": lambda: (11 if case[0] == 2 else 2) in codes,
+        "bounded-slice-advance": lambda: ((12 in codes and 9 in codes) if case[0] == 2
+                                          else (1 in codes and 4 in codes)),
     }
     if not all(need[t]() for t in tags):
         return None
@@ -430,12 +453,34 @@ def known(case, out, what):
     return None
 
 
+MANIFEST = dict(
+    text="Unbounded Coq theorems (structural induction over every nesting of Slice/Uninit views, every root "
+         "kind/length/capacity incl. pool buffers (BufferRef) in every capacity state, every fill list; induction "
+         "over member lists for Vec<T> vectored buffers; Slice<Slice<T>>::flatten denotes the same view for all "
+         "begin/end combinations in every state; BufferRef::set_capacity keeps len <= cap <= full size) about an "
+         "executable model of compio-buf's views; the model is tied to the code on every run by an exact "
+         "differential correspondence (6 root kinds + real BufferRefs from the fallback and the io_uring pool, 3 "
+         "container kinds, VectoredSlice, VectoredBufIter, the real flatten) plus an independent contract oracle.",
+    note="Trusted: Coq kernel; ExtrOcamlBasic extraction + OCaml driver; harnesses pure/c10.rs and rt/c10b.rs (enum "
+         "nesting of the real view types, shared module pure/src/c10_node.rs; offsets as pointer differences to the "
+         "root base; the nested Slice<Slice<_>> handed to the real flatten is rebuilt with slice(0..) + "
+         "set_begin_unchecked + set_end); exact with_capacity of Vec/BytesMut/SmallVec (asserted by the harness); "
+         "set_len beyond capacity = Vec abort under debug assertions, SmallVec silent UB trapped by the harness. "
+         "Vectored theorems cover the unsliced Vec<T> container and the first VectoredBufIter fill; sliced vectored "
+         "views, tuple containers and later iterator positions are covered by the correspondence and by refutation "
+         "witnesses only. Pool buffers are obtained with BufferPool::take (no kernel-selected buffer). The "
+         "full-strength statements are false in 7 classes (known findings, each with a vm_compute witness). Fixed "
+         "defect: BufferRef::set_capacity truncated its argument to 32 bits (f24a030). No axioms. No "
+         "release-profile pass: out-of-contract set_len is silent UB in release.",
+    technique="Coq proof (structural induction over view nestings and fill lists) + extracted-model differential "
+              "correspondence")
+
+
 class C10(diffcheck.DiffProp):
     pid = "C10"
-    manifest = dict(
-        text="Unbounded Coq theorems (structural induction over every nesting of Slice/Uninit views, every root kind/length/capacity, every fill list; induction over member lists for Vec<T> vectored buffers) about an executable model of compio-buf's views; the model is tied to the code on every run by an exact differential correspondence (6 root kinds, 3 container kinds, VectoredSlice, VectoredBufIter) plus an independent contract oracle.",
-        note="Trusted: Coq kernel; ExtrOcamlBasic extraction + OCaml driver; harness c10.rs (enum nesting of the real view types, offsets as pointer differences to the root base); exact with_capacity of Vec/BytesMut/SmallVec (asserted by the harness); set_len beyond capacity = Vec abort under debug assertions, SmallVec silent UB trapped by the harness. Vectored theorems cover the unsliced Vec<T> container and the first VectoredBufIter fill; sliced vectored views, tuple containers and later iterator positions are covered by the correspondence and by refutation witnesses only. BufferRef (pool buffers) is not built here (see C07). The full-strength statements are false in 7 classes (known findings, each with a vm_compute witness). No axioms. No release-profile pass: out-of-contract set_len is silent UB in release.",
-        technique="Coq proof (structural induction over view nestings and fill lists) + extracted-model differential correspondence")
+    evidence_name = "C10_views"
+    corpus_name = "C10"
+    manifest = MANIFEST
     prop_file = "prop/C10.v"
     model_name = "c10"
     harness_bin = "c10"
@@ -447,7 +492,8 @@ class C10(diffcheck.DiffProp):
     # free of overflow arithmetic
     thorough_release = False
     rule = ("cases = corpus (D6-class witnesses) + random programs: 55% buffer cases (6 root kinds, "
-            "capacities 0..16, 1..7 steps of slice/uninit/fill+advance_to/fill+advance/set_len), 45% "
+            "capacities 0..16, 1..8 steps of slice/uninit/fill+advance_to/fill+advance/set_len/flatten, a quarter "
+            "of them biased to nested slices with begin > 0 and ends None/inside/beyond the outer window), 45% "
             "vectored cases (Vec<T> and tuple containers of 0..4 members, slice/slice_mut/vectored "
             "fill+advance_vec_to/owned_iter/next/views over the iterator); 70% in-contract, 30% "
             "adversarial; distinct = distinct case lines; non-trivial = not rejected, no bare panic, "
@@ -467,8 +513,7 @@ class C10(diffcheck.DiffProp):
         "an I/O operation writes at the start of as_uninit() / iter_uninit_slice() in order and records "
         "the count with advance_to / advance_vec_to (compio-driver op/ext.rs); the harness does exactly that",
         "vectored members are root buffers (each its own allocation), not nested views",
-        "debug profile (debug assertions on); pool buffers (BufferRef), memmap2, bumpalo, BorrowedBuf "
-        "are not built",
+        "debug profile (debug assertions on); memmap2, bumpalo, BorrowedBuf are not built",
     ]
 
     def oracle(self, case, out):
@@ -478,4 +523,53 @@ class C10(diffcheck.DiffProp):
         return known(case, out, what)
 
 
-PROP = C10()
+class C10Pool(C10):
+    """pool buffers: the same buffer-case programs over real BufferRefs (harness rt/c10b)"""
+    evidence_name = "C10_pool"
+    corpus_name = "C10b"
+    harness_bin = "c10b"
+    package = "rt"
+    gen = gen_c10b
+    counts = {"quick": 600, "thorough": 12000}
+    rule = ("cases = corpus + random programs over a fresh BufferRef (fallback pool of the polling driver / "
+            "io_uring buffer ring, full size 1..64): slice/uninit/fills/flatten as in the view part plus "
+            "set_capacity(n) in every order (below the current length, back up, 0, beyond the full size, beyond "
+            "2^32); distinct/non-trivial as in the view part")
+    trusted_base = C10.trusted_base + [
+        "harness/rt/src/bin/c10b.rs: Proactor with buffer_pool_size 2 and buffer_pool_buffer_len = full size, "
+        "BufferPool::take; the buffer is pre-filled with canaries through as_uninit; base pointer and full size "
+        "from BufferRef::verif_identity (cfg(compio_verif) hook 7b11a8d)",
+    ]
+    assumptions = C10.assumptions + [
+        "a BufferRef taken with BufferPool::take behaves like one selected by the kernel (same type, len 0, "
+        "cap = full size)",
+    ]
+
+
+class C10All:
+    """C10 = views over ordinary buffers (harness pure/c10) + the same over pool buffers
+    (harness rt/c10b); one model (run_c10), one property file, one evidence file"""
+    pid = "C10"
+    manifest = MANIFEST
+    prop_file = "prop/C10.v"
+    model_name = "c10"
+    harness_bin = "c10"
+    package = "pure"
+    model_names = ["c10"]
+    harness_bins = [("c10", "pure"), ("c10b", "rt")]
+
+    def __init__(self):
+        self.parts = [C10(), C10Pool()]
+        self.gen = self.parts[0].gen
+
+    def oracle(self, case, out):
+        return oracle(case, out)
+
+    def known(self, case, out, what):
+        return known(case, out, what)
+
+    def run(self, tier, seed, replay=None):
+        return diffcheck.run_multi("C10", self.parts, tier, seed, replay)
+
+
+PROP = C10All()
